@@ -91,10 +91,15 @@ class StatsRun:
             proto = ch.choose("cfg.proto", ["v2v1", "v2v1", "v1"])
             if proto == "v1" and rid in (0, 20):
                 proto = "v2v1"
+            ready_first = proto == "v1" and ch.flag("cfg.ready_first", 1, 3)
+            if ready_first:
+                # an old-style client that announces its process id before it asks to be connected
+                a.send(C.MT_MODULE_READY, C.pack_module_ready(pid), src=rid)
+                self.res.probes["module_ready_before_connect"] += 1
             a.handshake(proto, req_id=rid, allow_multiple=multi, pid=pid, name=b"")
             a.pid_hist = []          # (seq_sent, seq_done, pid)
             s0 = w.net.seq
-            if proto == "v1":
+            if proto == "v1" and not ready_first:
                 a.pid_hist.append((s0, None, 0))
                 a.send(C.MT_MODULE_READY, C.pack_module_ready(pid))
             a.pid_hist.append((s0, None, pid))
